@@ -334,18 +334,23 @@ def r02_56(chk: Check):
 
 
 def rules(chk: Check) -> None:
-    ex, A, B = r02_1(chk)
-    r02_2(chk, A, B)
-    r02_3(chk)
-    r02_4(chk)
-    r02_56(chk)
+    r1 = chk.stage(r02_1, chk)
+    if r1 is not None:
+        chk.stage(r02_2, chk, r1[1], r1[2])
+    for grp in (r02_3, r02_4, r02_56):
+        chk.stage(grp, chk)
     # R02.7: the template model's closed forms are flux conservation with its own equation of state: T- from energy-flux continuity,
     # T+ = Tn w+^(1/mu), the same alpha+(v+, v-) relation in every routine (identities shared with C15 R15.5)
     from ..core import Remap
     from . import c15
-    c15.r15_5(Remap(chk, {"R15.5": "R02.7"}))
+    chk.stage(c15.r15_5, Remap(chk, {"R15.5": "R02.7"}))
     chk.floor("R02.7", 4)
     # R02.8: the exact matching is not silently replaced by the template's: sign-tested root searches bracket between the tested points
     from .shared import guarded_brackets
-    guarded_brackets(chk, "R02.8", ["hydrodynamics:Hydrodynamics.findMatching", "hydrodynamics:Hydrodynamics.matchDeton",
+    # (the fallback is never decided on a stale convergence flag)
+    from .shared import flag_fresh_before_read
+    chk.stage(flag_fresh_before_read, chk, "R02.8")
+    from .shared import per_object_state
+    chk.stage(per_object_state, chk, "R02.8", ("Hydrodynamics", "HydrodynamicsTemplateModel", "Thermodynamics", "FreeEnergy", "InterpolatableFunction"))
+    chk.stage(guarded_brackets, chk, "R02.8", ["hydrodynamics:Hydrodynamics.findMatching", "hydrodynamics:Hydrodynamics.matchDeton",
                                     "hydrodynamics:Hydrodynamics.matchDeflagOrHyb"], floor=2)
